@@ -9,7 +9,7 @@ import json
 import time
 
 import lemoncheesecake
-from lemoncheesecake.reporting.backend import FileReportBackend, ReportUnserializerMixin
+from lemoncheesecake.reporting.backend import FileReportBackend, ReportUnserializerMixin, open_for_atomic_write
 from lemoncheesecake.reporting.report import (
     Report, Log, Check, Attachment, Url, Step, Result, TestResult, SuiteResult,
     format_time_as_iso8601, parse_iso8601_time
@@ -137,7 +137,7 @@ def serialize_report_into_json(report):
 
 def save_report_into_file(report, filename, javascript_compatibility=True, pretty_formatting=False):
     json_report = serialize_report_into_json(report)
-    with open(filename, "w") as fh:
+    with open_for_atomic_write(filename) as fh:
         if javascript_compatibility:
             fh.write(JS_PREFIX)
         if pretty_formatting:
